@@ -1,9 +1,79 @@
-(* C11 - a query means what its text says.  Property statements only. *)
+(* C11 - a query means what its text says.  Property statements only: each theorem is closed by
+   [exact <lemma>] and followed by Print Assumptions.  Models: Model/Query.v (the parser as it is
+   in query2.py), Model/QueryRef.v (reference grammar, printer under an arbitrary layout,
+   reference evaluator); proofs: Proofs/QueryRef*.v.
+   PARTIAL: the round trip parse (print t) = t is proved for every layout and every well-formed
+   term without dict literals (C11_parse_print_partial); for all terms including dicts the token
+   scanner is proved exact (C11_parse_token_exact, C11_scanner_neutral).  The dict-entry loop, the
+   statement / program level and eval = denote are not proved (statements in notes/agents/C11.md);
+   they are covered by the correspondence run and the reference-evaluator oracle only. *)
 From Coq Require Import String.
 From AwVerif Require Import Base.Prelude Model.PyStr Model.Query Model.QueryRef
-  Proofs.QueryExamples Proofs.QueryRefExamples.
+  Proofs.QueryRefStr Proofs.QueryRefScan Proofs.QueryRefToken Proofs.QueryRefParse
+  Proofs.QueryRefLoops Proofs.QueryRefTerm Proofs.QueryExamples Proofs.QueryRefExamples.
 Open Scope Z_scope.
 
+(* String literals: QString.check stops exactly at the closing quote of a printed literal (any
+   content not ending in a backslash: other quote, escaped quotes, brackets, commas, '=' ...),
+   and QString.parse's replace / [1:-1] gives back the content. *)
+Theorem C11_string_scan_exact : forall q s r, q = c_dq \/ q = c_sq -> ends_ok s = true ->
+  check_string (str_txt q s ++ r) = Ok (Some (str_txt q s), r).
+Proof. exact check_string_exact. Qed.
+Print Assumptions C11_string_scan_exact.
+
+Theorem C11_escape_unescape : forall q s, q = c_dq \/ q = c_sq -> ends_ok s = true ->
+  parse_string (str_txt q s) = Ok s.
+Proof. exact parse_string_exact. Qed.
+Print Assumptions C11_escape_unescape.
+
+(* Scanner neutrality: the bracket-counting loop of QFunction/QDict/QList.check, started outside
+   quotes with count >= 1 in front of the printed text of ANY well-formed term (dicts included,
+   any layout), arrives behind it in the same state without the count touching 0. *)
+Theorem C11_scanner_neutral : forall lay, wf_layout lay -> forall md t, wf md t -> forall p,
+  forall opn cls dg rest i tc prev, pair_ok opn cls -> 1 <= tc -> prev_not_bs prev = true ->
+  exists prev', prev_not_bs prev' = true /\
+    bscan opn cls dg (txt lay p t ++ rest) i tc false false prev =
+    bscan opn cls dg rest (i + List.length (txt lay p t)) tc false false prev'.
+Proof. exact txt_neutral. Qed.
+Print Assumptions C11_scanner_neutral.
+
+(* _parse_token on blank ++ printed term ++ whatever may follow a token returns exactly the
+   term's text with the term's token type (all term kinds, any layout): nothing is swallowed,
+   nothing is left over - the defect-13 statement at the scanner level. *)
+Theorem C11_parse_token_exact : forall lay, wf_layout lay -> forall md t p b r,
+  forallb is_space b = true -> wf md t -> sep_start r = true ->
+  parse_token (b ++ txt lay p t ++ r) = Ok ((Some (kind t), txt lay p t), rstrip r).
+Proof. exact parse_token_exact. Qed.
+Print Assumptions C11_parse_token_exact.
+
+(* The argument loop and the list-entry loop rebuild every element in written order. *)
+Theorem C11_parse_args_exact : forall lay, wf_layout lay -> forall md ns args,
+  Forall (P lay md ns) args -> Forall (wf md) args -> args <> [] ->
+  forall p i b e fuel, forallb is_space b = true -> forallb is_space e = true ->
+  (2 * List.length (b ++ sep_core lay (txt lay) p i args ++ e) + 2 <= fuel)%nat ->
+  parse_args md ns fuel (b ++ sep_core lay (txt lay) p i args ++ e) = Ok (map (tok_of ns) args).
+Proof. exact parse_args_exact. Qed.
+Print Assumptions C11_parse_args_exact.
+
+(* parse (print t) = t for every layout and every well-formed term without dict literals,
+   at any nesting depth, given the fuel parse_stmt hands out. *)
+Theorem C11_parse_print_partial : forall lay, wf_layout lay -> forall md ns t, no_dict t -> wf md t ->
+  forall p fuel, (2 * List.length (txt lay p t) + 1 <= fuel)%nat ->
+  parse_tok md ns fuel (kind t) (txt lay p t) = Ok (tok_of ns t).
+Proof. exact parse_tok_exact_partial. Qed.
+Print Assumptions C11_parse_print_partial.
+
+Theorem C11_layout_irrelevant_partial : forall lay1 lay2 md ns t p1 p2 f1 f2,
+  wf_layout lay1 -> wf_layout lay2 -> wf md t -> no_dict t ->
+  (2 * List.length (txt lay1 p1 t) + 1 <= f1)%nat -> (2 * List.length (txt lay2 p2 t) + 1 <= f2)%nat ->
+  parse_tok md ns f1 (kind t) (txt lay1 p1 t) = parse_tok md ns f2 (kind t) (txt lay2 p2 t).
+Proof. exact parse_layout_irrelevant_partial. Qed.
+Print Assumptions C11_layout_irrelevant_partial.
+
+(* Non-vacuity, and the full statement on a concrete two-statement program with a list, a dict,
+   a string containing a quote, a comma and a bracket, a variable and nested calls, under a
+   spaced layout (blanks and line breaks at every slot) and the compact one: running the printed
+   text equals the reference evaluator's value. *)
 Example C11_ex_run_denote :
   ex_run_text (print ex_layout ex_prog) = ex_denote ex_prog /\
   ex_run_text (print ex_compact ex_prog) = ex_denote ex_prog /\
